@@ -15,7 +15,7 @@ import struct
 from ..core import hx, unhx, parallel_map
 
 DRIVERS = ["drv_edits"]
-GENERATED = ["AlignCosts", "HunkFlush", "EmphPaint"]
+GENERATED = ["AlignCosts", "HunkFlush", "EmphPaint", "PairThresholds"]
 
 REGEXES = [r"\w+", r".", r"\S+", r"[a-z]+|\d+"]
 EXTRA_REGEXES = [r"b*", r"\w"]          # empty matches; single-character tokens
@@ -676,6 +676,7 @@ def run(ctx, rep):
     end_to_end_hunks(ctx, rep)
     end_to_end_supply(ctx, rep)
     emph_flags_hook(ctx, rep)
+    end_to_end_thresholds(ctx, rep)
 
 
 CORPUS = [
@@ -707,6 +708,8 @@ def replay(ctx, rep, obj):
         return end_to_end_supply(ctx, rep, [(case["minus"], case["plus"], case["max"], case["plan"])])
     if case.get("op") == "emph-flags":
         return emph_flags_hook(ctx, rep, [case["plan"]])
+    if case.get("op") == "e2e-thr":
+        return end_to_end_thresholds(ctx, rep, [{k: case[k] for k in THR_JOB_KEYS}])
     if case.get("op") == "e2e":
         body = "".join("-" + l + "\n" for l in case["minus"]) + "".join("+" + l + "\n" for l in case["plus"])
         diff = "diff --git a/f b/f\n--- a/f\n+++ b/f\n@@ -1,%d +1,%d @@\n" % (len(case["minus"]), len(case["plus"])) + body
@@ -1130,7 +1133,7 @@ def emph_model(ctx):
     lean_exe is registered for it."""
     import os
     from ..core import LEAN, LineProc, lake_build
-    ok, _ = lake_build(["DeltaModel.EmphPaint", "DeltaModel.Proto"])
+    ok, _ = lake_build(["DeltaModel.EmphPaint", "DeltaModel.PairThresholds", "DeltaModel.Proto"])
     if not ok or not os.path.exists(os.path.join(LEAN, "DeltaModel", "EmphPaintProto.lean")):
         return None
     return LineProc(["lake", "env", "lean", "--run", "DeltaModel/EmphPaintProto.lean"], cwd=LEAN)
@@ -1351,3 +1354,434 @@ def emph_flags_hook(ctx, rep, plans=None):
                     model[kk] = (int(lk), fl == "1")
             rep.corr_case("emph.parse_styles", all(model.get(n) == impl[n] for n in names),
                           dict(case=replay, request=mr, model=ma, impl={n: list(v) for n, v in impl.items()}))
+
+
+# --------------------------------------------------------------------------- end to end: the configured thresholds
+#
+# `infer_edits` gets its two thresholds from its only caller, `get_diff_style_sections` (src/paint.rs), which reads
+# them from `Config`; `Config::from` computes them from `--max-line-distance` and from an environment variable.
+# That path is in the Lean model (DeltaModel/PairThresholds.lean; the argument expressions of the call and the
+# field expressions of `Config::from` are regenerated as expression trees into Generated/PairThresholds.lean).
+# Here the option reaches the real binary in every way the option machinery allows, with thresholds 0, 1 and values
+# just below / exactly at / just above the distance of the line pair, on lines from a few columns (distances near 1)
+# to thousands of columns (distances near 0), and the C06 statement is evaluated on what is displayed.
+
+NAIVE_VAR = "DELTA_EXPERIMENTAL_MAX_LINE_DISTANCE_FOR_NAIVELY_PAIRED_LINES"
+THR_PLACES = ["cli", "cli-eq", "main", "feature", "git-c"]
+THR_JOB_KEYS = ("minus", "plus", "thr", "place", "env", "cls", "sbs", "maxlen", "kind", "thr_kind")
+THR_KINDS = ["zero", "at", "above", "zero", "below", "one", "fixed", "zero", "default", "tiny"]
+ZEROS = ["0", "0.0", "0.00", "0e0", "00"]
+ONES = ["1", "1.0", "1.00", "1e0", "2"]
+NOSPACE = re.compile("[" + "".join(WS) + "]")
+
+
+def thr_word(rng, lo, hi, wide=0.0):
+    n = rng.randint(lo, hi)
+    if rng.random() < wide:
+        return "".join(rng.choice("日本語データ") for _ in range(max(1, n // 2)))
+    return "".join(rng.choice("abcdefghklmnoprstuvw") for _ in range(n))
+
+
+def thr_body(rng, cls):
+    """The unchanged words of a line. `long`: 400 .. 2900 columns (the distance of a one-token change gets close
+    to 0), `short`: 1 .. 8 columns (close to 1), `mid`: in between."""
+    if cls == "long":
+        target = rng.choice([rng.randint(400, 560), rng.randint(505, 1100), rng.randint(1000, 2900)])
+        lo, hi = rng.choice([(3, 12), (8, 60), (40, 200)])
+        words, width = [], 0
+        while width < target:
+            w = thr_word(rng, lo, hi, 0.05)
+            words.append(w); width += len(w) + 1
+        return words
+    if cls == "short":
+        return [thr_word(rng, 1, 3, 0.1) for _ in range(rng.randint(1, 2))]
+    return [thr_word(rng, 1, 9, 0.1) for _ in range(rng.randint(3, 14))]
+
+
+def thr_pair(rng, cls):
+    """(removed line, added line, kind of difference)."""
+    words = thr_body(rng, cls)
+    seps = [rng.choice([" ", " ", " ", ", ", " = ", "(", ".", "  "]) for _ in words[1:]] + [""]
+    kind = rng.choice(["token-append", "token-append", "token-insert", "token-replace", "token-delete", "ws-only",
+                       "ws-only", "ws+token", "identical", "unrelated", "token-replace"])
+    tok = rng.choice([";", "!", "x", "?", ",y", " z", "ok", "日", "0", "_"])
+
+    def join(ws, ss):
+        return "".join(w + s for w, s in zip(ws, ss))
+    a = join(words, seps)
+    w2, s2 = list(words), list(seps)
+    if kind in ("token-append", "token-delete"):
+        b = a + tok
+    elif kind == "token-insert":
+        i = rng.randrange(len(w2))
+        b = join(w2[:i], s2[:i]) + tok.strip() + " " + join(w2[i:], s2[i:])
+    elif kind == "token-replace":
+        i = rng.randrange(len(w2))
+        w2[i] = rng.choice([thr_word(rng, 1, 3), w2[i][:-1] + ("q" if w2[i][-1] != "q" else "z"), w2[i].upper()])
+        b = join(w2, s2)
+    elif kind in ("ws-only", "ws+token"):
+        for _ in range(rng.randint(1, 3)):
+            r = rng.random()
+            if r < 0.4 and len(s2) > 1:
+                i = rng.randrange(len(s2) - 1)
+                s2[i] = s2[i].replace(" ", rng.choice(["  ", "   ", "    "])) if " " in s2[i] else s2[i] + " "
+            elif r < 0.7:
+                w2[0] = rng.choice(["  ", "    ", " "]) + w2[0].lstrip()
+            else:
+                s2[-1] = rng.choice([" ", "  "])
+        b = join(w2, s2) + (tok.strip() if kind == "ws+token" else "")
+    elif kind == "identical":
+        b = a
+    else:
+        b = " ".join(thr_word(rng, 1, 9) for _ in range(rng.randint(1, 6)))
+    if kind == "token-delete" or (kind in ("token-insert", "ws-only") and rng.random() < 0.3):
+        a, b = b, a
+    return a, b, kind
+
+
+def thr_lines(rng, k):
+    """One subhunk: mostly one removed and one added line; also 2x2 (as many removed as added lines: the naive
+    threshold applies), an unrelated added line first (a rejected candidate), 2x1."""
+    cls = ["long", "mid", "short", "long"][k % 4]
+    a, b, kind = thr_pair(rng, cls)
+    shape = rng.choice(["1x1"] * 6 + ["2x2", "2x2", "1x2", "2x1"])
+    minus, plus = [a], [b]
+    if shape == "2x2":
+        a2, b2, _ = thr_pair(rng, rng.choice([cls, "mid"]))
+        minus.append(a2); plus.append(b2)
+    elif shape == "1x2":
+        plus.insert(0, " ".join(thr_word(rng, 2, 8) for _ in range(3)))
+    elif shape == "2x1":
+        minus.append(" ".join(thr_word(rng, 2, 8) for _ in range(3)))
+    ok = all(l.strip() and l[0] not in "-+\\" for l in minus + plus)
+    return (minus, plus, cls, kind) if ok else thr_lines(rng, k)
+
+
+def dec_str(q):
+    """Exact decimal spelling of a Fraction with a terminating expansion (no exponent), else None."""
+    from fractions import Fraction
+    d, k = q.denominator, 0
+    while d % 10 == 0:
+        d //= 10; k += 1
+    while d % 2 == 0:
+        d //= 2; k += 1
+    while d % 5 == 0:
+        d //= 5; k += 1
+    if d != 1 or k > 30:
+        return None
+    n = q * 10 ** k
+    sgn, n = ("-" if n < 0 else ""), abs(int(n))
+    digits = str(n).rjust(k + 1, "0")
+    return sgn + (digits[:-k] + "." + digits[-k:] if k else digits)
+
+
+def thr_choose(rng, k, dq):
+    """A threshold for a subhunk whose designed pair has distance `dq` (Fraction or None): (kind, spelling or None)."""
+    from fractions import Fraction
+    kind = THR_KINDS[k % len(THR_KINDS)]
+    if kind in ("at", "above", "below") and dq is None:
+        kind = "fixed"
+    if kind == "zero":
+        return kind, rng.choice(ZEROS)
+    if kind == "one":
+        return kind, rng.choice(ONES)
+    if kind == "default":
+        return kind, None
+    if kind == "tiny":        # a few units in the 3rd .. 6th decimal place: whether a long line pairs depends on it
+        return kind, rng.choice(["0.001", "0.0009", "0.0011", "0.002", "0.0005", "0.0001", "0.00001", "1e-3", "0.01"])
+    if kind == "fixed":
+        return kind, rng.choice(["0.6", "0.5", "0.3", "0.05", "0.9", "0.999", "0.25"])
+    if kind == "at":
+        s = dec_str(dq)
+        if s is not None and len(s) <= 17:
+            return kind, s
+        kind = rng.choice(["above", "below"])
+    places = rng.choice([4, 6, 9]) if dq > Fraction(1, 1000) else rng.choice([6, 9, 12])
+    unit = Fraction(1, 10 ** places)
+    if kind == "above":
+        q = (dq // unit + 1) * unit
+    else:
+        q = -((-dq) // unit) * unit - unit
+        if q < 0:
+            return "zero", "0"
+    return kind, dec_str(q)
+
+
+def thr_materialise(job, cdir):
+    """(command-line arguments, environment) that bring the job's threshold to delta in the job's way."""
+    import os
+    from ..core import sha
+    thr, place = job["thr"], job["place"]
+    args, env, main, feat = list(E2E_ARGS), {}, [], []
+    if job["env"] is not None:
+        env[NAIVE_VAR] = job["env"]
+    if thr is not None:
+        if place == "cli":
+            args += ["--max-line-distance", thr]
+        elif place == "cli-eq":
+            args += ["--max-line-distance=" + thr]
+        elif place == "main":
+            main.append("    max-line-distance = " + thr)
+        elif place == "feature":
+            feat.append("    max-line-distance = " + thr)
+        elif place == "git-c":
+            env["GIT_CONFIG_PARAMETERS"] = "'delta.max-line-distance=%s'" % thr
+    if thr is not None and place in ("main", "feature", "git-c"):
+        # `--config <file>` replaces every other git configuration (and still honours GIT_CONFIG_PARAMETERS)
+        if feat:
+            main.append("    features = vthr")
+        text = "[delta]\n" + "".join(l + "\n" for l in main) + ('[delta "vthr"]\n' + "\n".join(feat) + "\n" if feat else "")
+        path = os.path.join(cdir, sha(text)[:16] + ".gitconfig")
+        if not os.path.exists(path):
+            with open(path + ".%d" % os.getpid(), "w") as f:
+                f.write(text)
+            os.replace(path + ".%d" % os.getpid(), path)
+        args = ["--config", path] + args
+    if job["maxlen"] is not None:
+        args += ["--max-line-length", str(job["maxlen"])]
+    if job["sbs"]:
+        w = max(len(l) for l in job["minus"] + job["plus"])
+        args[args.index("--width") + 1] = str(2 * (2 * w + 8))      # wide characters take two columns
+        args += ["--side-by-side", "--line-numbers-left-format", "", "--line-numbers-right-format", ""]
+    return args, env
+
+
+def f64_of(s):
+    try:
+        return float(s)
+    except (TypeError, ValueError):
+        return None
+
+
+def greedy_pairs(minus, plus, dist, mxf, nvf):
+    """The pairing rule of the statement: each removed line, in order, takes the first not yet used added line whose
+    distance is within the maximum (within the naive threshold too when there are as many removed as added lines)."""
+    want, pi = [], 0
+    for i_, a in enumerate(minus):
+        for j_ in range(pi, len(plus)):
+            d_ = dist[(a, plus[j_])]
+            if (len(minus) == len(plus) and d_ <= nvf) or d_ <= mxf:
+                want.append((i_, j_)); pi = j_ + 1
+                break
+    return want
+
+
+def sbs_pairs(out, minus, plus):
+    """Side-by-side view: a removed and an added line are displayed as a pair iff they share a row. Returns the
+    pairs [(i, j)] or None when the rows cannot be decoded (wrapped / truncated lines)."""
+    M, ME, MN = BG["minus"], BG["minus_emph"], BG["minus_non_emph"]
+    P, PE, PN, WE = BG["plus"], BG["plus_emph"], BG["plus_non_emph"], BG["ws_error"]
+    mi = pi = 0
+    pairs = []
+    for row in out.decode("utf-8", "replace").split("\n"):
+        cells = decode_row(row)
+        left = "".join(ch for bg, ch in cells if bg in (M, ME, MN))
+        right = "".join(ch for bg, ch in cells if bg in (P, PE, PN, WE))
+        has_l = any(bg in (M, ME, MN) for bg, _ in cells)
+        has_r = any(bg in (P, PE, PN, WE) for bg, _ in cells)
+        if has_l:
+            if mi >= len(minus) or left.rstrip(" ") != minus[mi].rstrip(" "):
+                return None
+        if has_r:
+            if pi >= len(plus) or right.rstrip(" ") != plus[pi].rstrip(" "):
+                return None
+        if has_l and has_r:
+            pairs.append((mi, pi))
+        mi += has_l; pi += has_r
+    return pairs if (mi, pi) == (len(minus), len(plus)) else None
+
+
+def end_to_end_thresholds(ctx, rep, jobs=None):
+    """Real binary. `--max-line-distance` is written on the command line (two spellings), in the [delta] section of a
+    --config file, in a feature, or arrives as `git -c`; the environment variable of the naive threshold is unset,
+    zero, unparseable or a number. Direct oracle (independent of the model; distances are the implementation's own
+    `annotate` distances of the candidate pairs): (1) with the maximum 0 (and the naive threshold 0) every displayed
+    pair differs in nothing but whitespace; (2) the displayed pairs are those of the greedy rule with the *configured*
+    values; (3) everything `e2e_oracle` demands (sound emphasis, no emphasis without partner, positional pairs at 1).
+    Correspondence `e2e.pairing`: displayed pairs against the model (`pair.thresholds`: the generated argument /
+    field expressions interpreted on the option value, then `edits.infer` of `drv_edits` with those thresholds)."""
+    import os
+    from fractions import Fraction
+    from ..core import BUILD
+    rng = ctx.rng
+    REGEX = "\\w+"
+    fresh = jobs is None
+    if fresh:
+        drafts = [thr_lines(rng, k) for k in range(ctx.n(220, 9000))]
+    else:
+        drafts = [(j["minus"], j["plus"], j["cls"], j.get("kind", "?")) for j in jobs]
+    # the implementation's own distance of every candidate pair
+    preq, pidx = [], {}
+    for minus, plus, _, _ in drafts:
+        for a in minus:
+            for b in plus:
+                if (a, b) not in pidx:
+                    pidx[(a, b)] = len(preq)
+                    preq.append(f"edits.annotate {hx(REGEX)} {hx(a + chr(10))} {hx(b + chr(10))} {ND} {D} {NI} {I}")
+    pans = ask_parallel(ctx.hook, preq, chunk=max(200, len(preq) // 4 + 1))
+    dist = {}
+    for key, i in pidx.items():
+        a = pans[i]
+        if a.startswith("ok"):
+            dist[key] = struct.unpack(">d", bytes.fromhex(parse_kv(a)["D"]))[0]
+    if fresh:
+        jobs = []
+        for k, (minus, plus, cls, kind) in enumerate(drafts):
+            d0 = dist.get((minus[0], plus[-1] if len(plus) > len(minus) else plus[0]))
+            dq = Fraction(d0).limit_denominator(40000) if d0 is not None else None
+            if dq is not None and float(dq) != d0:
+                dq = None
+            tk, thr = thr_choose(rng, k, dq)
+            place = THR_PLACES[(k // len(THR_KINDS) + k) % len(THR_PLACES)]
+            env = rng.choice([None] * 6 + ["0", "0.0", "abc", "", "0.3", "1", "0.001"])
+            longest = max(len(l.encode()) for l in minus + plus)
+            maxlen = rng.choice([None, None, 0, longest + 1 + rng.randint(0, 50)])
+            if longest + 1 > 3000:
+                maxlen = 0
+            jobs.append(dict(minus=minus, plus=plus, thr=thr, place=place, env=env, cls=cls, kind=kind, thr_kind=tk,
+                             sbs=(k % 7 == 3 and longest < 1500), maxlen=maxlen))
+    cdir = os.path.join(BUILD, "c06-thr", str(os.getpid()))
+    os.makedirs(cdir, exist_ok=True)
+    mats = [thr_materialise(j, cdir) for j in jobs]
+
+    def one(jm):
+        j, (args, env) = jm
+        body = "".join("-" + l + "\n" for l in j["minus"]) + "".join("+" + l + "\n" for l in j["plus"])
+        diff = "diff --git a/f b/f\n--- a/f\n+++ b/f\n@@ -1,%d +1,%d @@\n" % (len(j["minus"]), len(j["plus"])) + body
+        return ctx.run_delta(args, diff.encode(), env=env)
+    outs = parallel_map(one, list(zip(jobs, mats)), workers=4)
+    for f in os.listdir(cdir):
+        try:
+            os.remove(os.path.join(cdir, f))
+        except OSError:
+            pass
+    try:
+        os.rmdir(cdir)
+    except OSError:
+        pass
+    M, ME, MN = BG["minus"], BG["minus_emph"], BG["minus_non_emph"]
+    P, PE, PN = BG["plus"], BG["plus_emph"], BG["plus_non_emph"]
+    shown = []          # per job: displayed pairs or None
+    for j, (args, env), (rc, out, err) in zip(jobs, mats, outs):
+        minus, plus, cls = j["minus"], j["plus"], j["cls"] + "-lines"
+        replay = dict(op="e2e-thr", args=args, environment=env, **{k: j.get(k) for k in THR_JOB_KEYS})
+        mxs = "0.6" if j["thr"] is None else j["thr"]
+        mxf = f64_of(mxs)
+        nvf = f64_of(j["env"]) if j["env"] is not None else 0.0
+        nvf = 0.0 if nvf is None else nvf
+        rep.count("e2e-thr:threshold-" + j.get("thr_kind", "?"))
+        rep.count("e2e-thr:place-" + (j["place"] if j["thr"] is not None else "not-given"))
+        rep.count("e2e-thr:" + cls)
+        rep.count("e2e-thr:env-" + ("unset" if j["env"] is None else ("zero" if nvf == 0.0 else "positive")))
+        if j["sbs"]:
+            rep.count("e2e-thr:side-by-side")
+            if rc != 0:
+                viol(rep, "e2e:side-by-side:exit-status", f"delta exited with {rc}", dict(replay, stderr=err.decode("utf-8", "replace")[-300:]))
+                shown.append(None); continue
+            pairs = sbs_pairs(out, minus, plus)
+            rep.case(key=("e2e-thr", j["thr"], j["place"], j["env"], True, tuple(minus), tuple(plus)), nontrivial=bool(pairs),
+                     sample=dict(replay, pairs=pairs) if pairs else None)
+            rep.count("e2e-thr:sbs-" + ("rows-decoded" if pairs is not None else "rows-not-decoded"))
+            if pairs is not None:
+                # the styles must tell the same story as the rows
+                rows = [decode_row(r) for r in out.decode("utf-8", "replace").split("\n")]
+                ms = [any(bg in (ME, MN) for bg, _ in r) for r in rows if any(bg in (M, ME, MN) for bg, _ in r)]
+                if [i for i, f in enumerate(ms) if f] != [i for i, _ in pairs]:
+                    viol(rep, "e2e:side-by-side:shared-row-and-pair-styles-disagree",
+                         "the removed lines that share a row with an added line are not those painted as paired", replay)
+        else:
+            got = e2e_oracle(rep, replay, minus, plus, mxs, rc, out, err, "e2e", "e2e-thr")
+            pairs = None
+            if got is not None:
+                mrows, prows = got
+                mp = [k for k, r in enumerate(mrows) if any(bg in (ME, MN) for bg, _ in r)]
+                pp = [k for k, r in enumerate(prows) if any(bg in (PE, PN) for bg, _ in r)]
+                pairs = list(zip(mp, pp)) if len(mp) == len(pp) else None
+        shown.append(pairs)
+        if pairs is None or mxf is None:
+            continue
+        where = ":side-by-side" if j["sbs"] else ""
+        # (1) the maximum set to 0: only lines that differ in nothing but whitespace are paired
+        if mxf == 0.0 and (nvf == 0.0 or len(minus) != len(plus)):
+            for a, b in pairs:
+                if NOSPACE.sub("", minus[a]) != NOSPACE.sub("", plus[b]):
+                    viol(rep, f"e2e:distance-zero-pairs-nonblank-difference:{cls}{where}",
+                         "with max-line-distance 0 two lines are displayed as a pair although they differ in more than whitespace",
+                         dict(replay, pair=[a, b], distance=dist.get((minus[a], plus[b]))))
+        # (2) the displayed pairs are those of the greedy rule with the configured values
+        if all((a, b) in dist for a in minus for b in plus):
+            want = greedy_pairs(minus, plus, dist, mxf, nvf)
+            rep.count("e2e-thr:expected-pairs=%d" % min(len(want), 3))
+            if want != pairs:
+                extra = [q for q in pairs if q not in want][:1]
+                missed = [q for q in want if q not in pairs][:1]
+                q = (extra or missed)[0]
+                viol(rep, ("e2e:pairing-beyond-configured-distance:" if extra else "e2e:pairing-ignores-configured-distance:") + cls + where,
+                     ("two lines are displayed as a pair although their distance exceeds the configured maximum" if extra else
+                      "two lines whose distance is within the configured maximum, and which the greedy order reaches, are not displayed as a pair"),
+                     dict(replay, pair=list(q), distance=dist.get((minus[q[0]], plus[q[1]])), configured=mxs,
+                          naive=j["env"], expected_pairs=want, displayed_pairs=pairs))
+    # --- correspondence with the model: option value -> Config -> arguments of infer_edits -> pairing
+    mdl = emph_model(ctx) if ctx.drivers_ok else None
+    if mdl is None:
+        return
+
+    def frac(sv):
+        try:
+            q = Fraction(sv)
+        except (ValueError, ZeroDivisionError):
+            return None
+        return q
+    todo, treq = [], []
+    for k, (j, pairs) in enumerate(zip(jobs, shown)):
+        if pairs is None:
+            continue
+        oq = "default" if j["thr"] is None else frac(j["thr"])
+        if j["env"] is None:
+            eq = "-"
+        else:
+            eq = frac(j["env"]) if f64_of(j["env"]) is not None else "x"
+        if oq is None or eq is None:
+            continue
+        ntok = max(len(re.findall(r"\w+", l)) for l in j["minus"] + j["plus"])
+        if ntok > 60 or len(j["minus"]) * len(j["plus"]) * ntok * ntok > 8000:
+            rep.count("e2e-thr:model-skipped-size")
+            continue
+        fq = lambda q: q if isinstance(q, str) else "%d/%d" % (q.numerator, q.denominator)
+        todo.append(k); treq.append(f"pair.thresholds {fq(oq)} {fq(eq)}")
+    tans = mdl.ask(treq, timeout=600) if treq else []
+    dom = Domain(ctx)
+    dom.fetch([(REGEX, l + "\n") for k in todo for l in jobs[k]["minus"] + jobs[k]["plus"]])
+    ireq, iidx = [], []
+    for k, ta in zip(todo, tans):
+        j = jobs[k]
+        f = ta.split(" ")
+        if f[0] != "ok" or len(f) != 3:
+            rep.count("e2e-thr:model-not-evaluable")
+            continue
+        mx, nv = dec_str(Fraction(f[1])), dec_str(Fraction(f[2]))
+        lines = [l + "\n" for l in j["minus"] + j["plus"]]
+        if mx is None or nv is None or mx.startswith("-") or nv.startswith("-") or not all(dom.ok(REGEX, l) for l in lines):
+            rep.count("e2e-thr:model-skipped-domain")
+            continue
+        parts = [f"edits.infer {hx(REGEX)} {mx} {nv} {D} {I}", str(len(j["minus"]))]
+        for l in j["minus"]:
+            parts += [hx(l + "\n"), str(ND), dom.field(REGEX, l + "\n")]
+        parts.append(str(len(j["plus"])))
+        for l in j["plus"]:
+            parts += [hx(l + "\n"), str(NI), dom.field(REGEX, l + "\n")]
+        ireq.append(" ".join(parts)); iidx.append((k, ta))
+    ians = ask_parallel(lambda: ctx.model("drv_edits"), ireq, chunk=max(50, len(ireq) // 4 + 1))
+    for (k, ta), req, ans in zip(iidx, ireq, ians):
+        j = jobs[k]
+        pred = None
+        if ans.startswith("ok"):
+            al = parse_kv(ans)["A"]
+            pred = []
+            for e in (al.split(",") if al else []):
+                a, b = e.split(":")
+                if a != "-" and b != "-":
+                    pred.append((int(a), int(b)))
+        rep.corr_case("e2e.pairing", pred == shown[k],
+                      dict(case=dict(op="e2e-thr", **{kk: j.get(kk) for kk in THR_JOB_KEYS}), thresholds=ta,
+                           model=pred, impl=shown[k]))
